@@ -226,6 +226,13 @@ def jobStages (k seg t : Nat) : List StageCfg → Nat → Files → Files
     else if sc.kind = .store then jobStages k seg t rest (j + 1) (jobMods k seg t j sc.mods 0 f)
     else jobStages k seg t rest (j + 1) f
 
+/-- the files a tier2 job of (graph stage `t`, segment `seg`) leaves (`service.GetExecutionPlan`,
+`cache.Engine.EndOfStream`): the missing store files of the stages `≤ t` and, when `t` is the last (mapper)
+stage and the output module has started, the file of the output module for `[max start init, stop)` — the
+`.output` file of a map, the `.index` file of a block-index module (`Files.outputs` stands for either: one
+request has one output module).  An existing file is kept; it does not make the job a no-op: since 6f136481
+`GetExecutionPlan` answers "nothing to do" only when no store is left to write either (and it never did for an
+index module, `outputModuleDone` being set for maps only). -/
 def runJob (c : Cfg) (t seg : Nat) (f : Files) : Files :=
   let k := c.interval
   let start := seg * k
@@ -233,14 +240,11 @@ def runJob (c : Cfg) (t seg : Nat) (f : Files) : Files :=
   match c.graph[t]? with
   | none => f
   | some sc =>
+    let f1 := jobStages k seg t c.graph 0 f
     if sc.kind = .map then
       let xinit := sc.mods.headD 0
-      if xinit < stop then
-        let ms := max start xinit
-        if f.hasOutput ms stop then f        -- "found existing exec output for output_module, skipping run"
-        else (jobStages k seg t c.graph 0 f).addOutput ms stop
-      else jobStages k seg t c.graph 0 f
-    else jobStages k seg t c.graph 0 f
+      if xinit < stop then f1.addOutput (max start xinit) stop else f1
+    else f1
 
 /-- `singleSquash` for one module; `none` = the squash fails (a file it needs is missing) -/
 def squashMod (st : Stage) (seg : Nat) (i : Nat) (m : ModState) (f : Files) : Option (ModState × Files) :=
